@@ -208,6 +208,14 @@ func applyOp(b []byte, op string) ([]byte, bool) {
 		}
 		b[bit/8] ^= 1 << (bit % 8)
 		return b, true
+	case "set-f32": // a stored float replaced by a special bit pattern (bit rot that lands on NaN/Inf)
+		off := num(1)
+		if off < 0 || off+4 > len(b) {
+			return b, false
+		}
+		bits, _ := strconv.ParseUint(parts[2], 16, 32)
+		binary.LittleEndian.PutUint32(b[off:], uint32(bits))
+		return b, true
 	case "set-count":
 		if len(b) < 84 {
 			return b, false
